@@ -92,7 +92,12 @@ def cval(t):
 
 
 def unview(t: Term) -> Term:
-    """Strip content-preserving wrappers: memoryview(x) / bytes(x) / bytearray(x) / x.tobytes() / cast(T, x)."""
+    """Strip content-preserving wrappers: memoryview(x) / bytes(x) / bytearray(x) / x.tobytes() / cast(T, x); a conditional whose two
+    alternatives are the same content either way (`bytes(x) if not x.c_contiguous else x`) is that content."""
+    if isinstance(t, tuple) and t and t[0] == "ite":
+        a, b = unview(t[2]), unview(t[3])
+        if a == b and a[0] != "ite":
+            return a
     while isinstance(t, tuple) and t and t[0] == "call":
         fref, args = t[1], t[2]
         if fref[0] == "ext" and fref[1] in VIEW_FUNCS and len(args) == 1 and not t[3]:
@@ -611,6 +616,27 @@ class TermAnalysis(Analysis):
             for t in node.targets:
                 if isinstance(t, ast.Name):
                     st.env.pop(t.id, None)
+                elif isinstance(t, ast.Subscript) and isinstance(t.slice, ast.Slice) and t.slice.step is None and self.key_of(t.value):
+                    # del x[a:b]: x becomes x[:a] + x[b:]  (del x[:b] -> x[b:], del x[a:] -> x[:a])
+                    k = self.key_of(t.value)
+                    old = self.ev(t.value, st)
+                    lo = self.ev(t.slice.lower, st) if t.slice.lower is not None else None
+                    hi = self.ev(t.slice.upper, st) if t.slice.upper is not None else None
+                    if lo is None or lo == const(0):
+                        new = ("slice", old, hi, None, None) if hi is not None else ("call", ("ext", "bytearray"), (), ())
+                    elif hi is None:
+                        new = ("slice", old, None, lo, None)
+                    else:
+                        new = ("bin", "+", ("slice", old, None, lo, None), ("slice", old, hi, None, None))
+                    st.env[k] = new
+                    if "." not in k:
+                        # the local names the object an attribute holds (x = self.buf; del x[:n]): that object is what shrinks
+                        for a_ in ast.walk(self.fn.node):
+                            if isinstance(a_, ast.Assign) and len(a_.targets) == 1 and isinstance(a_.targets[0], ast.Name) and a_.targets[0].id == k \
+                                    and isinstance(a_.value, ast.Attribute):
+                                ak = self.key_of(a_.value)
+                                if ak and st.env.get(ak) == old:
+                                    st.env[ak] = new
         return st
 
     @staticmethod
@@ -730,7 +756,9 @@ class TermAnalysis(Analysis):
     def widen_loop(self, node, state: State) -> State:
         st = state.copy()
         body_assigned = set()
-        for n in node.body + getattr(node, "orelse", []):
+        # (a `while` test is evaluated on every round: what it assigns - a walrus, a helper that takes the next item off a buffer - is loop-carried)
+        scan_nodes = list(node.body) + list(getattr(node, "orelse", [])) + ([node.test] if isinstance(node, ast.While) else [])
+        for n in scan_nodes:
             for x in ast.walk(n):
                 if isinstance(x, ast.Name) and isinstance(x.ctx, ast.Store):
                     body_assigned.add(x.id)
@@ -750,7 +778,7 @@ class TermAnalysis(Analysis):
         if self.fn is not None and self.param_names and self.fn.kind in ("method", "classmethod", "property", "setter"):
             from .helpers import unknown_callee, with_helpers
             recv = self.param_names[0]
-            for n in node.body + getattr(node, "orelse", []):
+            for n in scan_nodes:
                 for x in ast.walk(n):
                     if isinstance(x, ast.Call) and isinstance(x.func, ast.Attribute) and isinstance(x.func.value, ast.Name) and x.func.value.id == recv:
                         t = unknown_callee(self.prog, self.fn, x)
@@ -772,7 +800,7 @@ class TermAnalysis(Analysis):
         # locals handed to an unknown helper that changes its parameter in place (buf += ..., buf.append(..)) are loop-carried as well
         if self.fn is not None:
             from .helpers import unknown_callee
-            for n in node.body + getattr(node, "orelse", []):
+            for n in scan_nodes:
                 for x in ast.walk(n):
                     if not isinstance(x, ast.Call):
                         continue
@@ -983,6 +1011,25 @@ class TermAnalysis(Analysis):
                         return const(self.prog.fold(a[1], a[0].module, a[0]))
                     except Exception:
                         pass
+                    # a class-level literal table whose entries are not plain constants (classes, functions), never rebound or mutated
+                    def plain(v):
+                        return isinstance(v, (ast.Name, ast.Attribute, ast.Constant)) or (isinstance(v, (ast.Tuple, ast.List)) and all(plain(x) for x in v.elts))
+                    if isinstance(a[1], (ast.Dict, ast.Tuple, ast.List)) and len(getattr(a[1], "keys", getattr(a[1], "elts", []))) <= 24 and a[0].module is self.m \
+                            and all(plain(v) for v in (a[1].values if isinstance(a[1], ast.Dict) else a[1].elts)):
+                        nm = e.attr
+                        touched = any((isinstance(n, ast.Attribute) and n.attr == nm and isinstance(n.ctx, (ast.Store, ast.Del))) or
+                                      (isinstance(n, ast.Attribute) and n.attr in MUTATORS and isinstance(n.value, ast.Attribute) and n.value.attr == nm) or
+                                      (isinstance(n, ast.Subscript) and isinstance(n.ctx, (ast.Store, ast.Del)) and isinstance(n.value, ast.Attribute) and n.value.attr == nm)
+                                      for n in ast.walk(self.m.tree))
+                        if not touched:
+                            saved = self.record
+                            self.record = False
+                            try:
+                                return self.ev(a[1], State({}))
+                            except AnalysisError:
+                                pass
+                            finally:
+                                self.record = saved
                 if e.attr in self.cls.nested:
                     return ("global", self.cls.nested[e.attr].qual)
                 for k2 in self.prog.mro(self.cls):
@@ -1075,8 +1122,16 @@ class TermAnalysis(Analysis):
                     pass
             return ("un", UOPS[type(e.op)], a)
         if isinstance(e, ast.BoolOp):
-            vals = tuple(self.ev(v, st) for v in e.values)
-            return ("bool", "and" if isinstance(e.op, ast.And) else "or", vals)
+            vals = [self.ev(v, st) for v in e.values]
+            is_and = isinstance(e.op, ast.And)
+            # leading constants decide or drop out (short-circuit evaluation): `False and x` is False, `True and x` is x
+            while len(vals) > 1 and is_const(vals[0]) and isinstance(vals[0][1], (bool, int, str, bytes, type(None))):
+                if bool(vals[0][1]) != is_and:
+                    return vals[0]
+                vals = vals[1:]
+            if len(vals) == 1:
+                return vals[0]
+            return ("bool", "and" if is_and else "or", tuple(vals))
         if isinstance(e, ast.Compare):
             left = self.ev(e.left, st)
             parts = []
@@ -1090,6 +1145,9 @@ class TermAnalysis(Analysis):
                     # n in range(a, b) for an integer n is a <= n < b
                     rng = ("bool", "and", (("cmp", "<=", const(r[1].start), left), ("cmp", "<", left, const(r[1].stop))))
                     parts.append(rng if isinstance(op, ast.In) else ("un", "not", rng))
+                elif isinstance(op, (ast.Is, ast.IsNot)) and is_const(left) and is_const(r) and (left[1] is None or r[1] is None) \
+                        and all(isinstance(x[1], (bool, int, str, bytes, float, type(None))) for x in (left, r)):
+                    parts.append(const((left[1] is None and r[1] is None) == isinstance(op, ast.Is)))          # None is None / 3 is not None
                 else:
                     parts.append(("cmp", CMPS[type(op)], left, r))
                 left = r
@@ -1280,6 +1338,18 @@ class TermAnalysis(Analysis):
             for x in t[2][0][1][1:]:
                 out = ("bin", "+", out, x)
             return out
+        if t[0] == "call" and t[1][0] == "meth" and t[1][2] in ("digest", "hexdigest") and not t[2] and not t[3] and t[1][1][0] == "mut" and t[1][1][1] == "update":
+            # h = hashlib.md5(a); h.update(b); h.update(c); h.digest() is hashlib.md5(a + b + c).digest()
+            parts, cur = [], t[1][1]
+            while cur[0] == "mut" and cur[1] == "update" and len(cur[3]) == 1:
+                parts.append(cur[3][0])
+                cur = cur[2]
+            if cur[0] == "call" and cur[1][0] == "ext" and cur[1][1].startswith("hashlib.") and len(cur[2]) <= 1 and not cur[3]:
+                parts = list(cur[2]) + parts[::-1]
+                whole = parts[0]
+                for x in parts[1:]:
+                    whole = ("bin", "+", whole, x)
+                return self._outline(("call", ("meth", ("call", cur[1], (whole,), ()), t[1][2]), (), ()))
         if t[0] == "call" and t[1] == ("ext", "isinstance") and len(t[2]) == 2 and not t[3] and t[2][1][0] == "bin" and t[2][1][1] == "|":
             # isinstance(x, A | B) is isinstance(x, (A, B))
             def union(u):
@@ -1392,6 +1462,44 @@ class TermAnalysis(Analysis):
                 r = self.inline(e, ("call", ("func", lf.qual), t[2], t[3]), st, callee=lf)
                 if r is not None:
                     return r
+        return self._outline(t)
+
+    # functions of the package whose one-expression body the rules know by the function's name: a term that *is* that body (the call was
+    # written out, or reached through a new helper that was seen through) is the function applied to the same arguments
+    OUTLINED = ("msmart.lan.Security.sign",)
+
+    def _outline(self, t: Term) -> Term:
+        if not (isinstance(t, tuple) and t and t[0] == "call"):
+            return t
+        for q in self.OUTLINED:
+            f = self.prog.funcs.get(q)
+            if f is None or self.fn is None or self.fn.qual == q or self.inline_depth > 6:
+                continue
+            cache = self.prog.__dict__.setdefault("_outline_templates", {})
+            if q not in cache:
+                cache[q] = None
+                try:
+                    cache[q] = summarize(self.prog, f, depth=7).return_term()
+                except (AnalysisError, RecursionError):
+                    pass
+            tmpl = cache[q]
+            if tmpl is None or tmpl[0] != "call" or tmpl[1][0] != t[1][0] or (t[1][0] == "meth" and tmpl[1][2] != t[1][2]):
+                continue
+            holes = [p for p in f.params if not (f.kind in ("method", "classmethod") and p == f.params[0])]
+            bind = {}
+
+            def unify(a, b):
+                if isinstance(a, tuple) and len(a) == 2 and a[0] == "param" and a[1] in holes:
+                    if a[1] in bind:
+                        return bind[a[1]] == b
+                    bind[a[1]] = b
+                    return True
+                if isinstance(a, tuple) and isinstance(b, tuple):
+                    return len(a) == len(b) and all(unify(x, y) for x, y in zip(a, b))
+                return a == b
+            if unify(tmpl, t) and set(bind) == set(holes):
+                recv = ((("global", f.cls.qual),) if f.cls is not None and f.kind in ("method", "classmethod") else ())
+                return ("call", ("func", q), recv + tuple(bind[h] for h in holes), ())
         return t
 
     def _was_inlined(self, call_node) -> bool:
@@ -1801,6 +1909,9 @@ class TermEngine(Engine):
                 elif isinstance(n, ast.Expr) and isinstance(n.value, ast.Call) and isinstance(n.value.func, ast.Name) and n.value.func.id == "setattr" \
                         and len(n.value.args) == 3:
                     continue            # table-driven attribute stores: setattr(self, name, value) with name drawn from the table
+                elif isinstance(n, ast.Expr) and isinstance(n.value, ast.Call) and isinstance(n.value.func, ast.Attribute) and isinstance(n.value.func.value, ast.Name) \
+                        and n.value.func.attr in MUTATORS:
+                    continue            # acc.append(x) / digest.update(chunk): accumulation into a local object
                 elif not isinstance(n, ast.Pass):
                     return False
             return True
@@ -1942,7 +2053,51 @@ class Summary:
 _CACHE: Dict[tuple, Summary] = {}
 
 
+def unsupplied_switches(prog: Program, fn: FuncInfo) -> Dict[str, Term]:
+    """Parameters of fn with the default None / False that no call in the package supplies (by keyword, or by enough positional arguments, in a
+    call of anything with fn's name): optional switches whose default keeps the behaviour the package itself relies on.  A stand-alone
+    summary of fn is taken with these parameters at their defaults - what an outside caller may do with the switch is not what the
+    properties are about."""
+    cache = prog.__dict__.setdefault("_unsupplied_switches", {})
+    if fn.qual in cache:
+        return cache[fn.qual]
+    cache[fn.qual] = {}
+    a = fn.node.args
+    pos = a.posonlyargs + a.args
+    cands = {}
+    for p_, d in list(zip(pos[len(pos) - len(a.defaults):], a.defaults)) + [(p_, d) for p_, d in zip(a.kwonlyargs, a.kw_defaults) if d is not None]:
+        if isinstance(d, ast.Constant) and (d.value is None or d.value is False):
+            cands[p_.arg] = ("const", d.value)
+    if not cands or fn.name.startswith("__"):
+        return cache[fn.qual]
+    pos_names = [x.arg for x in pos]
+    recv = 1 if (fn.cls is not None and fn.kind in ("method", "classmethod", "property", "setter")) else 0
+    for m in prog.modules.values():
+        for n in ast.walk(m.tree):
+            if not isinstance(n, ast.Call):
+                continue
+            f_ = n.func
+            nm = f_.attr if isinstance(f_, ast.Attribute) else (f_.id if isinstance(f_, ast.Name) else None)
+            if nm != fn.name and not (fn.name == "__init__" and fn.cls is not None and nm == fn.cls.name):
+                continue
+            if any(k.arg is None for k in n.keywords) or any(isinstance(x, ast.Starred) for x in n.args):
+                cands = {}
+                break
+            for k in n.keywords:
+                cands.pop(k.arg, None)
+            for i in range(len(n.args)):
+                for off in (0, recv):
+                    if i + off < len(pos_names):
+                        cands.pop(pos_names[i + off], None)
+        if not cands:
+            break
+    cache[fn.qual] = cands
+    return cands
+
+
 def summarize(prog: Program, fn: FuncInfo, args: Optional[Dict[str, Term]] = None, depth: int = 0) -> Summary:
+    if args is None and depth == 0:
+        args = unsupplied_switches(prog, fn) or None
     key = (id(prog), fn.qual, fn.kind, tuple(sorted((args or {}).items())))
     if key in _CACHE:
         return _CACHE[key]
@@ -1960,7 +2115,9 @@ def bind_args(fn: FuncInfo, args: Tuple[Term, ...], kwargs=()) -> Dict[str, Term
     a = fn.node.args
     names = [x.arg for x in a.posonlyargs + a.args]
     out = {}
-    if fn.kind == "classmethod" and fn.cls is not None and len(args) == len(names) - 1:
+    if fn.kind == "classmethod" and fn.cls is not None and (
+            (a.vararg is None and len(args) == len(names) - 1) or
+            (a.vararg is not None and not (args and isinstance(args[0], tuple) and (args[0][0] == "global" or (names and args[0] == ("param", names[0])))))):
         args = (("global", fn.cls.qual),) + tuple(args)      # Class.method(...) called through the class
     for n, v in zip(names, args):
         out[n] = v
